@@ -124,13 +124,19 @@ def read_all(unit, store, model, problems, what):
     except Exception as e:
         problems.append(('iterate-raises', what, repr(e)))
         return
+    # the ORDER in which iterate() yields the live keys is not part of the property: compare as a set
+    try:
+        it = sorted(it, key=lambda x: x[0][0])
+    except Exception:
+        problems.append(('iterate-yields-something-that-is-not-a-key', what, repr(it)[:200]))
+        return
     keys = [x[0] for x in it]
     want_keys = [m['key'] for i, m in sorted(model.items())]
     if keys != want_keys:
         problems.append(('iterate-keys-differ-from-live-keys', what, repr(keys), repr(want_keys)))
     else:
         for (k, v, is_set), (i, m) in zip(it, sorted(model.items())):
-            if is_set != (m['value'] is not NS):
+            if bool(is_set) != (m['value'] is not NS):
                 problems.append(('iterate-is_set-wrong', what, i))
             elif is_set and v != m['value']:
                 problems.append(('iterate-value-wrong', what, i, repr(v)))
@@ -364,7 +370,7 @@ def apply_manager(unit, sm, model, op):
         return problems
     for s in (0, 1):
         try:
-            it = [x[0] for x in sm.iterate_state(s)]
+            it = sorted(x[0] for x in sm.iterate_state(s))
             if it != [(j,) for j in sorted(model[s])]:
                 problems.append(('manager-iterate_state-differs-from-live-keys', s, repr(it)))
         except Exception as e:
